@@ -263,6 +263,13 @@ pub fn run(ctx: &Ctx, st: &mut Stats) {
         for &f in &fs {
             st.eval(&C::af(K::AddDays, o, f), check);
             st.eval(&C::af(K::SubDays, o, f), check);
+            // the same offsets through the Timestamp-side entry points, from the whole second and from inside it
+            for sub in [0i64, 1, 500_000, 999_999] {
+                if o + sub <= TS_MAX {
+                    st.eval(&C::af(K::TsAddDays, o + sub, f), check);
+                    st.eval(&C::af(K::TsSubDays, o + sub, f), check);
+                }
+            }
         }
         // offsets into the last / first second of the range
         for e in [-1_500_000i64, -1_000_000, -750_000, -600_000, -500_001, -500_000, -499_999, -250_000, 0, 250_000, 499_999, 500_000, 500_001, 600_000, 750_000, 999_999, 1_000_000, 1_500_000] {
